@@ -4,21 +4,7 @@ Import ListNotations.
 Open Scope Z_scope.
 Ltac Zify.zify_post_hook ::= Z.to_euclidean_division_equations.
 
-Ltac go2 A B :=
-  destruct A as [| |l1 h1], B as [| |l2 h2]; cbn [mem wf] in *; try contradiction;
-  open_range; rewrite ?wrap256_unsigned; consts; exec; getreps; subst.
 
-Ltac fixreps :=
-  repeat match goal with
-  | H : ?x <= ?v <= ?x |- _ => is_var v; assert (v = x) by lia; subst v
-  end.
-Lemma to_signed_mod v : - HALF <= v < HALF -> to_signed (v mod W) = v.
-Proof.
-  intros H. unfold to_signed. destruct (v mod W <? HALF) eqn:E; b2p; mlia.
-Qed.
-
-Ltac wordwit := post_if; b2p;
-  lazymatch goal with |- (exists v, _ <= v <= _ /\ v mod W = ?w) /\ _ => sw w end.
 
 Theorem eval_mod_sound : sound2 eval_mod w_mod.
 Proof.
@@ -105,8 +91,3 @@ Proof.
     split; [exists (v0 / 2 ^ (h1 mod W)); split; [lia | reflexivity] | wl].
 Qed.
 
-Theorem eval_smod_sound : sound2 eval_smod w_smod.
-Proof.
-  intros A B a b WA WB MA MB; unfold eval_smod; go2 A B; unfold w_smod, of_signed; fixreps.
-  Show.
-Abort.
